@@ -459,6 +459,16 @@ package wire
 //@   arith bv
 //@   requires p != nil
 //@   ensures [length-consistent] implies(result == nil, len(b) >= expectedLen && expectedLen >= 1)
+//@   let val = lastresult("Parse", 0)
+//@   let parsed = called("Parse") == 1 && lastresult("Parse", 2) == nil && lastresult("Parse", 1) == expectedLen
+//@   ensures [parse-failure-rejected] implies(!parsed, result != nil)
+//@   ensures [stream-counts-in-range] implies(parsed && (paramID == initialMaxStreamsBidiParameterID || paramID == initialMaxStreamsUniParameterID), iff(result == nil, val <= 1152921504606846976))
+//@   ensures [stream-counts-value] implies(result == nil && paramID == initialMaxStreamsBidiParameterID, uint64(p.MaxBidiStreamNum) == val) && implies(result == nil && paramID == initialMaxStreamsUniParameterID, uint64(p.MaxUniStreamNum) == val)
+//@   ensures [ack-delay-exponent-in-range] implies(parsed && paramID == ackDelayExponentParameterID, iff(result == nil, val <= 20) && implies(result == nil, uint64(p.AckDelayExponent) == val))
+//@   ensures [max-ack-delay-in-range] implies(parsed && paramID == maxAckDelayParameterID, iff(result == nil, val <= 16383))
+//@   ensures [max-udp-payload-size-in-range] implies(parsed && paramID == maxUDPPayloadSizeParameterID, iff(result == nil, val >= 1200) && implies(result == nil, uint64(p.MaxUDPPayloadSize) == val))
+//@   ensures [active-connection-id-limit-in-range] implies(parsed && paramID == activeConnectionIDLimitParameterID, iff(result == nil, val >= 2) && implies(result == nil, p.ActiveConnectionIDLimit == val))
+//@   ensures [windows-value] implies(result == nil && paramID == initialMaxDataParameterID, uint64(p.InitialMaxData) == val) && implies(result == nil && paramID == initialMaxStreamDataBidiLocalParameterID, uint64(p.InitialMaxStreamDataBidiLocal) == val) && implies(result == nil && paramID == initialMaxStreamDataBidiRemoteParameterID, uint64(p.InitialMaxStreamDataBidiRemote) == val) && implies(result == nil && paramID == initialMaxStreamDataUniParameterID, uint64(p.InitialMaxStreamDataUni) == val)
 //@   modifies p.*
 
 //@ func (p *TransportParameters) readPreferredAddress
@@ -788,4 +798,18 @@ package wire
 
 //@ func (h *ExtendedHeader) Log
 //@   trusted logging only
+//@   modifies nothing
+
+// ---------------- remembered transport parameters (0-RTT) ----------------
+// 0-RTT may only be accepted if no limit the client remembered has been reduced (RFC 9000 7.4.1) and the connection ID
+// limit is unchanged; an update after resumption must not reduce any remembered limit either.
+//@ func (p *TransportParameters) ValidFor0RTT
+//@   props C13
+//@   let dgOK = saved.MaxDatagramFrameSize == -1 || (p.MaxDatagramFrameSize != -1 && p.MaxDatagramFrameSize >= saved.MaxDatagramFrameSize)
+//@   ensures [no-limit-reduced] iff(result, dgOK && p.InitialMaxStreamDataBidiLocal >= saved.InitialMaxStreamDataBidiLocal && p.InitialMaxStreamDataBidiRemote >= saved.InitialMaxStreamDataBidiRemote && p.InitialMaxStreamDataUni >= saved.InitialMaxStreamDataUni && p.InitialMaxData >= saved.InitialMaxData && p.MaxBidiStreamNum >= saved.MaxBidiStreamNum && p.MaxUniStreamNum >= saved.MaxUniStreamNum && p.ActiveConnectionIDLimit == saved.ActiveConnectionIDLimit)
+//@   modifies nothing
+//@ func (p *TransportParameters) ValidForUpdate
+//@   props C13
+//@   let dgOK = saved.MaxDatagramFrameSize == -1 || (p.MaxDatagramFrameSize != -1 && p.MaxDatagramFrameSize >= saved.MaxDatagramFrameSize)
+//@   ensures [no-limit-reduced] iff(result, dgOK && p.InitialMaxStreamDataBidiLocal >= saved.InitialMaxStreamDataBidiLocal && p.InitialMaxStreamDataBidiRemote >= saved.InitialMaxStreamDataBidiRemote && p.InitialMaxStreamDataUni >= saved.InitialMaxStreamDataUni && p.InitialMaxData >= saved.InitialMaxData && p.MaxBidiStreamNum >= saved.MaxBidiStreamNum && p.MaxUniStreamNum >= saved.MaxUniStreamNum && p.ActiveConnectionIDLimit >= saved.ActiveConnectionIDLimit)
 //@   modifies nothing
